@@ -87,6 +87,9 @@ func (c *recCase) target() any {
 		}
 		return p.Interface()
 	case 2:
+		if c.rt.Kind() == reflect.Map {
+			return reflect.MakeMap(c.rt).Interface()
+		}
 		return reflect.New(c.rt).Elem().Interface()
 	case 3:
 		return nil
@@ -687,15 +690,23 @@ func genRecCase(seed uint64, w, idx int) *recCase {
 		// most targets are structs or containers of them
 		c.rt = wildStruct(r, 2)
 	}
+	// How the target is handed over and what a user composer answers are the PROGRAM's, not input:
+	// only the documented forms are generated (a pointer; a slice, array or made map by value), and
+	// composer functions that answer a value of their type, a pointer to one, or an error. (nil, typed
+	// nil and **T targets and functions answering nil or another type were generated until the second
+	// review: C06 is about arbitrary DATA; the two known families that explained them are gone.)
 	if r.Intn(4) == 0 {
-		c.tmode = 1 + r.Intn(5)
+		c.tmode = 1 + r.Intn(2)
+		if k := c.rt.Kind(); c.tmode == 2 && k != reflect.Slice && k != reflect.Array && k != reflect.Map {
+			c.tmode = 1
+		}
 	}
 	switch n := r.Intn(10); {
 	case n < 4:
 	case n < 6:
 		c.rmode = 1
 	case n < 8:
-		c.rmode, c.fmode = 2, r.Intn(len(recFunModes))
+		c.rmode, c.fmode = 2, lib.Pick(r, []int{0, 1, 4})
 	case n < 9:
 		c.rmode = 3
 	default:
@@ -828,6 +839,10 @@ func stringKeyed(v any) (reflect.Value, bool) {
 // fits: the datum has the shape the recomposer can put into rt without a reflect conversion
 // failing. viaSet: the slot is filled by setValue (a struct field or an element), where json.Number
 // and — for a field tagged ",string" (str) — strings are taken for numbers and bools.
+//
+// Every slot that does not fit adds the fault text reflect answers there to fitsPred (all of them:
+// which one a call meets first is up to Go's map order), so that the predicate can ask for the
+// fault the mismatch PREDICTS.
 func fits(v any, rt reflect.Type, viaSet, str bool, depth int) bool {
 	if depth > 60 {
 		return true
@@ -841,42 +856,50 @@ func fits(v any, rt reflect.Type, viaSet, str bool, depth int) bool {
 		if _, ok := v.(string); ok && viaSet && str {
 			return true
 		}
-		_, ok := v.(bool)
-		return ok
+		if _, ok := v.(bool); ok {
+			return true
+		}
+		if v == nil {
+			return miss(shZeroSet) // rv.Set(reflect.ValueOf(nil))
+		}
+		return miss(shSet)
 	case reflect.String:
 		if v == nil {
-			return false
+			return miss(shNilPtr) // reflect.ValueOf(nil).Convert
 		}
 		vt := reflect.TypeOf(v)
-		return reflect.ValueOf(v).CanConvert(rt) && (vt.Kind() == reflect.String || isNumKind(vt.Kind()) && vt.Kind() != reflect.Float32 && vt.Kind() != reflect.Float64 ||
-			vt.Kind() == reflect.Slice)
+		if reflect.ValueOf(v).CanConvert(rt) && (vt.Kind() == reflect.String || isNumKind(vt.Kind()) && vt.Kind() != reflect.Float32 && vt.Kind() != reflect.Float64 ||
+			vt.Kind() == reflect.Slice) {
+			return true
+		}
+		return miss(shConv)
 	case reflect.Slice:
 		rv := reflect.ValueOf(v)
 		if rv.Kind() != reflect.Slice {
 			return true // refused with an error of the recomposer's own
 		}
+		ok := true
 		for i := 0; i < rv.Len(); i++ {
 			e := rv.Index(i).Interface()
 			if rt.Elem().Kind() == reflect.Ptr {
-				if e != nil && !fits(e, rt.Elem().Elem(), false, false, depth+1) {
-					return false
+				if e != nil {
+					ok = fits(e, rt.Elem().Elem(), false, false, depth+1) && ok
 				}
-			} else if !fits(e, rt.Elem(), true, false, depth+1) {
-				return false
+			} else {
+				ok = fits(e, rt.Elem(), true, false, depth+1) && ok
 			}
 		}
-		return true
+		return ok
 	case reflect.Array:
 		rv := reflect.ValueOf(v)
 		if rv.Kind() != reflect.Slice {
 			return true
 		}
+		ok := true
 		for i := 0; i < rv.Len() && i < rt.Len(); i++ {
-			if !fits(rv.Index(i).Interface(), rt.Elem(), true, false, depth+1) {
-				return false
-			}
+			ok = fits(rv.Index(i).Interface(), rt.Elem(), true, false, depth+1) && ok
 		}
-		return true
+		return ok
 	case reflect.Map:
 		if v == nil {
 			return true
@@ -886,8 +909,9 @@ func fits(v any, rt reflect.Type, viaSet, str bool, depth int) bool {
 			return true
 		}
 		if rv.Type().Key() != stringType {
-			return false
+			return miss(shIconv) // iter.Key().Interface().(string)
 		}
+		ok := true
 		for _, k := range rv.MapKeys() {
 			e := rv.MapIndex(k).Interface()
 			if e == nil {
@@ -897,15 +921,16 @@ func fits(v any, rt reflect.Type, viaSet, str bool, depth int) bool {
 			if et.Kind() == reflect.Ptr {
 				et = et.Elem()
 			}
-			if !fits(e, et, false, false, depth+1) {
-				return false
-			}
+			ok = fits(e, et, false, false, depth+1) && ok
 		}
-		return true
+		return ok
 	case reflect.Struct:
 		rv, ok := stringKeyed(v)
 		if !ok {
-			return reflect.ValueOf(v).Kind() != reflect.Map // another map type: its keys are asserted to be strings
+			if reflect.ValueOf(v).Kind() != reflect.Map {
+				return true
+			}
+			return miss(shIconv) // another map type: its keys are asserted to be strings
 		}
 		get := func(k string) (any, bool) {
 			e := rv.MapIndex(reflect.ValueOf(k))
@@ -918,17 +943,38 @@ func fits(v any, rt reflect.Type, viaSet, str bool, depth int) bool {
 	}
 	if isNumKind(rt.Kind()) {
 		if v == nil {
-			return false
+			return miss(shNilPtr) // reflect.ValueOf(nil).Convert
 		}
 		if _, ok := v.(json.Number); ok {
-			return viaSet
+			return viaSet || miss(shConv)
 		}
 		if _, ok := v.(string); ok {
-			return viaSet && str
+			return viaSet && str || miss(shConv)
 		}
-		return isNumKind(reflect.TypeOf(v).Kind())
+		return isNumKind(reflect.TypeOf(v).Kind()) || miss(shConv)
 	}
 	return true // func, chan, complex …: refused with an error of the recomposer's own
+}
+
+// the fault texts (see faultShape)
+const (
+	shConv    = "reflect.Value.Convert: … cannot be converted"
+	shSet     = "reflect.Set: … is not assignable"
+	shSetMap  = "reflect.Value.SetMapIndex: … is not assignable"
+	shZeroT   = "reflect: call of reflect.Value.Type on zero Value"
+	shZeroSet = "reflect: call of reflect.Value.Set on zero Value"
+	shNewNil  = "reflect: New(nil)"
+	shNilMap  = "assignment to entry in nil map"
+	shNilPtr  = "runtime error: invalid memory address or nil pointer dereference"
+	shIconv   = "interface conversion"
+)
+
+// fitsPred: the fault texts the mismatches found by fits predict.
+var fitsPred = map[string]bool{}
+
+func miss(shape string) bool {
+	fitsPred[shape] = true
+	return false
 }
 
 // fitsCtx: what an interface slot may turn into — the create key and the struct types the create-key
@@ -947,11 +993,11 @@ func fitsAny(v any, depth int) bool {
 	rv := reflect.ValueOf(v)
 	switch rv.Kind() {
 	case reflect.Slice, reflect.Array:
+		ok := true
 		for i := 0; i < rv.Len(); i++ {
-			if !fitsAny(rv.Index(i).Interface(), depth+1) {
-				return false
-			}
+			ok = fitsAny(rv.Index(i).Interface(), depth+1) && ok
 		}
+		return ok
 	case reflect.Map:
 		if rv.Type().Key() != stringType {
 			return true
@@ -967,17 +1013,19 @@ func fitsAny(v any, depth int) bool {
 			} else if s, ok := cv.Interface().(string); ok {
 				tn = s
 			}
+			ok := true
 			for _, st := range fitsCtx.named[tn] {
-				if !fits(v, st, false, false, depth+1) {
-					return false
-				}
+				ok = fits(v, st, false, false, depth+1) && ok
 			}
-		}
-		for _, k := range rv.MapKeys() {
-			if !fitsAny(rv.MapIndex(k).Interface(), depth+1) {
+			if !ok {
 				return false
 			}
 		}
+		ok := true
+		for _, k := range rv.MapKeys() {
+			ok = fitsAny(rv.MapIndex(k).Interface(), depth+1) && ok
+		}
+		return ok
 	}
 	return true
 }
@@ -986,6 +1034,7 @@ func fitsFields(get func(string) (any, bool), st reflect.Type, depth int) bool {
 	if depth > 60 {
 		return true
 	}
+	all := true
 	for i := 0; i < st.NumField(); i++ {
 		f := st.Field(i)
 		if f.PkgPath != "" {
@@ -996,9 +1045,7 @@ func fitsFields(get func(string) (any, bool), st reflect.Type, depth int) bool {
 			et = et.Elem()
 		}
 		if f.Anonymous && et.Kind() == reflect.Struct {
-			if !fitsFields(get, et, depth+1) {
-				return false
-			}
+			all = fitsFields(get, et, depth+1) && all
 			continue
 		}
 		tag, _ := f.Tag.Lookup("json")
@@ -1020,14 +1067,14 @@ func fitsFields(get func(string) (any, bool), st reflect.Type, depth int) bool {
 		low1 := strings.ToLower(f.Name[:1]) + f.Name[1:]
 		for _, k := range []string{key, f.Name, low1, strings.ToLower(f.Name)} {
 			if m, has := get(k); has {
-				if m != nil && !fits(m, f.Type, true, strings.Contains(tag, ",string"), depth+1) {
-					return false
+				if m != nil {
+					all = fits(m, f.Type, true, strings.Contains(tag, ",string"), depth+1) && all
 				}
 				break
 			}
 		}
 	}
-	return true
+	return all
 }
 
 func forceFloats(v any) any {
@@ -1228,42 +1275,43 @@ func sameFullName(rt reflect.Type) bool {
 	return false
 }
 
-// knownShapes: the fault texts (types taken out, see faultShape) each known family was found with. A
-// fault text that is new for its family is a violation.
-var knownShapes = func() map[string]map[string]bool {
-	const (
-		conv   = "reflect.Value.Convert: … cannot be converted"
-		set    = "reflect.Set: … is not assignable"
-		setMap = "reflect.Value.SetMapIndex: … is not assignable"
-		zeroT  = "reflect: call of reflect.Value.Type on zero Value"
-		zeroS  = "reflect: call of reflect.Value.Set on zero Value"
-		unaddr = "reflect: reflect.Value.Set using unaddressable value"
-		newNil = "reflect: New(nil)"
-		nilMap = "assignment to entry in nil map"
-		nilPtr = "runtime error: invalid memory address or nil pointer dereference"
-		iconv  = "interface conversion"
-	)
-	mk := func(xs ...string) map[string]bool {
-		m := map[string]bool{}
-		for _, x := range xs {
-			m[x] = true
+// unsupportedShapes: the fault texts the unsupported parts of a target type predict once data reaches
+// them: a map whose key type is not string (SetMapIndex), an interface with methods or a named bool
+// (Set; SetMapIndex when it is the element type of a map).
+func unsupportedShapes(rt reflect.Type, inMap bool, seen map[reflect.Type]bool, out map[string]bool) {
+	if seen[rt] {
+		return
+	}
+	seen[rt] = true
+	switch rt.Kind() {
+	case reflect.Map:
+		if rt.Key() != stringType {
+			out[shSetMap] = true
 		}
-		return m
+		unsupportedShapes(rt.Elem(), true, seen, out)
+	case reflect.Interface:
+		if rt.NumMethod() > 0 {
+			out[shSet] = true
+			if inMap {
+				out[shSetMap] = true
+			}
+		}
+	case reflect.Bool:
+		if rt != boolType {
+			out[shSet] = true
+		}
+	case reflect.Ptr, reflect.Slice, reflect.Array:
+		unsupportedShapes(rt.Elem(), false, seen, out)
+	case reflect.Struct:
+		for i := 0; i < rt.NumField(); i++ {
+			unsupportedShapes(rt.Field(i).Type, false, seen, out)
+		}
 	}
-	return map[string]map[string]bool{
-		"C06rec-mismatch-fault":             mk(conv, set, zeroS, nilPtr, iconv),
-		"C06rec-unsupported-type":           mk(conv, set, setMap, zeroS, nilPtr, iconv),
-		"C06rec-odd-target":                 mk(conv, set, setMap, zeroT, zeroS, unaddr, newNil, nilPtr, iconv),
-		"C06rec-zero-recomposer":            mk(nilMap, conv, set, setMap, zeroT, zeroS, unaddr, nilPtr, iconv),
-		"C06rec-composer-answer":            mk(conv, set, setMap, zeroT, zeroS, nilPtr, iconv),
-		"C06rec-createkey-unmarshaler-name": mk(newNil, conv, set, setMap, nilPtr, iconv),
-		"C06rec-composer-map-key":           mk(nilPtr),
-		"C06rec-any-composer-unguarded":     mk(set, conv),
-	}
-}()
+}
 
-// knownFault names the known family a surfaced fault belongs to, or "".
-func knownFault(c *recCase, tree any, def bool) string {
+// knownFault names the known family that PREDICTS this fault text for this case, or "": the family's
+// condition on the case and the text its defect produces there, both.
+func knownFault(c *recCase, tree any, def bool, shape string) string {
 	var sts []reflect.Type
 	ctx := c.ctxRT
 	if ctx == nil {
@@ -1275,21 +1323,23 @@ func knownFault(c *recCase, tree any, def bool) string {
 		fitsCtx.named[st.Name()] = append(fitsCtx.named[st.Name()], st)
 	}
 	switch {
-	case c.rmode == 3:
-		return "C06rec-zero-recomposer"
-	case c.tmode >= 2:
-		return "C06rec-odd-target"
-	case c.rmode == 2 && c.fmode >= 2 && c.fmode <= 3:
-		return "C06rec-composer-answer"
-	case def && namesUnmarshaler(tree, c.ck, 0):
-		return "C06rec-createkey-unmarshaler-name"
-	case unsupported(c.rt, map[reflect.Type]bool{}) || unsupported(ctx, map[reflect.Type]bool{}):
+	case c.rmode == 3 && shape == shNilMap:
+		return "C06rec-zero-recomposer" // the nil registry is written to
+	case def && shape == shNewNil && namesUnmarshaler(tree, c.ck, 0):
+		return "C06rec-createkey-unmarshaler-name" // the typeless bridge entry is instantiated
+	}
+	fitsPred = map[string]bool{}
+	if !fits(tree, c.rt, false, false, 0) && fitsPred[shape] {
+		return "C06rec-mismatch-fault" // a slot of the datum that does not fit predicts exactly this text
+	}
+	un := map[string]bool{}
+	unsupportedShapes(c.rt, false, map[reflect.Type]bool{}, un)
+	unsupportedShapes(ctx, false, map[reflect.Type]bool{}, un)
+	if un[shape] {
 		return "C06rec-unsupported-type"
-	case !fits(tree, c.rt, false, false, 0):
-		return "C06rec-mismatch-fault"
-	case c.rmode == 2 && sameFullName(ctx):
-		// the datum fits, the functions answer the right type — for the type they were registered for
-		return "C06rec-any-composer-unguarded"
+	}
+	if c.rmode == 2 && sameFullName(ctx) && (shape == shSet || shape == shConv) {
+		return "C06rec-any-composer-unguarded" // fixed by /repo fd0bfc5: a violation if it shows again
 	}
 	return ""
 }
@@ -1304,12 +1354,8 @@ func (ch *recChild) judge(c *recCase, entry string, o callOut, tree any, def, mu
 		shape := faultShape(o.text())
 		ch.shapes[shape]++
 		ch.counts["fault_as_error"]++
-		id := knownFault(c, tree, def)
+		id := knownFault(c, tree, def, shape)
 		ch.counts["family "+id+" | "+shape]++
-		if id != "" && !knownShapes[id][shape] {
-			// a family explains the fault texts it was found with, not any fault
-			id = ""
-		}
 		if id != "" && lib.HasKnown(knownList, id) {
 			ch.counts["known."+id]++
 			ch.finding(c, "known", "fault-as-error:"+entry+":"+id, id, fmt.Sprintf("%s reports a runtime fault: %.300s", entry, o.text()))
@@ -1441,8 +1487,8 @@ func (ch *recChild) runCase(c *recCase) {
 			if _, has := c.anys[nil]; has {
 				id = "C06rec-composer-map-key"
 			}
-			if id != "" && !knownShapes[id][faultShape(p.o.text())] {
-				id = ""
+			if id != "" && faultShape(p.o.text()) != shNilPtr {
+				id = "" // the defect is the nil reflect.Type being dereferenced, nothing else
 			}
 			if id != "" && lib.HasKnown(knownList, id) {
 				ch.counts["known."+id]++
